@@ -42,7 +42,28 @@ def _is_marker(g, n):
             return True
         if nm == 'initialize' and n.frame is not None and n.frame.func.name == 'add_asset':
             return True
+        if n.frame is not None and n.frame.func.name == 'add_asset' and _forwards_initialize(g, cl):
+            return True
     return False
+
+
+def _forwards_initialize(g, cl):
+    """a call, made by add_asset, of a method that only one class defines and that does nothing but `<parameter>.initialize(...)`
+    (`self._initialize_asset(asset)`): the initialize() call under another name"""
+    P = getattr(g, 'P', None) or _FWD.get('P')
+    if P is None or not isinstance(cl.func, ast.Attribute):
+        return False
+    from ..cfg import _unique_methods
+    um = _unique_methods(P).get(cl.func.attr)
+    if not um:
+        return False
+    body = [s_ for s_ in um[1].body if not (isinstance(s_, ast.Expr) and isinstance(s_.value, ast.Constant))]
+    params = [a.arg for a in um[1].args.args]
+    return len(body) == 1 and isinstance(body[0], ast.Expr) and isinstance(body[0].value, ast.Call) and isinstance(body[0].value.func, ast.Attribute) \
+        and body[0].value.func.attr == 'initialize' and isinstance(body[0].value.func.value, ast.Name) and body[0].value.func.value.id in params[1:]
+
+
+_FWD = {}
 
 
 def _rhs_text(rhs):
@@ -65,6 +86,7 @@ def _const_like(rhs):
 
 def ordering(ctx, oa, ob, o2):
     P = ctx.P
+    _FWD['P'] = P
     eff = Effects(P)
     asset = P.cls('Asset')
     classes = sorted(P.subclasses(asset), key=lambda c: c.name)
